@@ -517,6 +517,16 @@ fn run_names(idx: u64, acc: &mut Acc) {
         let src = ctx.replace('$', &c_src);
         check(acc, &format!("{} coalesce in `{}`", site, ctx), &src, &bdesc, &co_ctx_expected(ctx, &c), &b);
     }
+    // as an intermediate component of a path through a map that lacks it
+    if d[1] == 0 && name != "zz" {
+        let mut b2 = BindContext::new();
+        b2.bind_param("mm", V::map(&[("other", V::Int(1))]).to_cel());
+        b2.bind_param("ll", V::list(&[V::map(&[("other", V::Int(1))])]).to_cel());
+        let bd = "mm = {'other': 1}, ll = [mm]";
+        check(acc, &format!("{} has through an absent component", site), &format!("has(mm.{}.b)", name), bd, &Ok(V::Bool(false)), &b2);
+        check(acc, &format!("{} coalesce through an absent component", site), &format!("coalesce(mm.{}.k, 'dflt')", name), bd, &Ok(V::s("dflt")), &b2);
+        check(acc, &format!("{} has through an absent component in a macro", site), &format!("ll.map(i, has(i.{}.b))", name), bd, &Ok(V::list(&[V::Bool(false)])), &b2);
+    }
     // and as the root of a path
     let src = format!("has({}.a)", name);
     let want = match d[1] {
